@@ -54,9 +54,11 @@ IfsExpect(args) ==
        ELSE IfsExpect(SubSeq(args, 3, Len(args)))
 
 (* equality used by SWITCH: defined between values of the same plain type  *)
-SwEqDefined(a, b) == a.t \in {"num", "txt", "bool"} /\ b.t \in {"num", "txt", "bool"}
-                     /\ ~({a.t, b.t} = {"num", "bool"})
-SwEq(a, b) == a.t = b.t /\ (IF a.t = "num" THEN QEq(QOf(a), QOf(b))
+(* (a blank equals a blank; a blank against 0, "" or FALSE is left open)    *)
+SwEqDefined(a, b) == \/ (a.t = "blank" /\ b.t = "blank")
+                     \/ /\ a.t \in {"num", "txt", "bool"} /\ b.t \in {"num", "txt", "bool"}
+                        /\ ~({a.t, b.t} = {"num", "bool"})
+SwEq(a, b) == a.t = b.t /\ (IF a.t = "blank" THEN TRUE ELSE IF a.t = "num" THEN QEq(QOf(a), QOf(b))
                             ELSE IF a.t = "txt" THEN a.s = b.s ELSE a.b = b.b)
 
 RECURSIVE SwitchExpect(_, _)
@@ -94,6 +96,8 @@ FloatParity(f, v) ==
 Parity(f, v) ==
   IF IsErr(v) THEN EAny
   ELSE IF v.t = "flt" /\ "ip" \in DOMAIN v /\ "nd" \in DOMAIN v THEN FloatParity(f, v)
+  ELSE IF v.t = "big" /\ "ld" \in DOMAIN v      \* a whole number beyond TLC's range, given with its last decimal digit
+       THEN ETruth(IF f = "ISODD" THEN v.ld % 2 = 1 ELSE v.ld % 2 = 0)
   ELSE IF v.t # "num" THEN EAny
   ELSE LET odd == TruncQ(QOf(v)) % 2 = 1
        IN ETruth(IF f = "ISODD" THEN odd ELSE ~odd)
